@@ -2,6 +2,7 @@ package validator
 
 import (
 	"github.com/jsightapi/jsight-schema-go-library/errors"
+	"github.com/jsightapi/jsight-schema-go-library/internal/json"
 	"github.com/jsightapi/jsight-schema-go-library/internal/lexeme"
 	"github.com/jsightapi/jsight-schema-go-library/notations/jschema/internal/schema"
 )
@@ -11,6 +12,11 @@ import (
 type literalValidator struct {
 	node_   schema.Node
 	parent_ validator
+
+	// nullOnly the validator accepts nothing but null. Used for `nullable: true`
+	// on nodes which are validated by other validators (type references, "or"
+	// rules, objects and arrays).
+	nullOnly bool
 }
 
 func newLiteralValidator(node schema.Node, parent validator) *literalValidator {
@@ -25,6 +31,13 @@ func newLiteralValidator(node schema.Node, parent validator) *literalValidator {
 	default:
 		panic(errors.ErrValidator)
 	}
+}
+
+// newNullValidator creates a validator for the null admitted by `nullable: true`.
+func newNullValidator(node schema.Node, parent validator) *literalValidator {
+	v := newLiteralValidator(node, parent)
+	v.nullOnly = true
+	return v
 }
 
 func (v literalValidator) node() schema.Node {
@@ -47,6 +60,12 @@ func (v *literalValidator) feed(jsonLexeme lexeme.LexEvent) ([]validator, bool) 
 	case lexeme.LiteralBegin:
 		return nil, false
 	case lexeme.LiteralEnd:
+		if v.nullOnly {
+			if t := json.Guess(jsonLexeme.Value()).LiteralJsonType(); t != json.TypeNull { // can panic
+				panic(errors.Format(errors.ErrInvalidValueType, t.String(), json.TypeNull.String()))
+			}
+			return nil, true
+		}
 		ValidateLiteralValue(v.node_, jsonLexeme.Value()) // can panic
 		return nil, true
 	}
